@@ -15,10 +15,13 @@ import Deepali.Drv.Itk
 import Deepali.Drv.ImageIO
 import Deepali.Drv.TransformState
 import Deepali.Drv.Heap
+import Deepali.Drv.Grad
+import Deepali.Drv.Transforms
+import Deepali.Drv.Regularizers
 namespace Deepali.Drv
 open Deepali.Proto
 
 def allHandlers : List (String × Reader String) :=
-  gridHandlers ++ sampleHandlers ++ flowHandlers ++ affineHandlers ++ bsplineHandlers ++ fdHandlers ++ lossHandlers ++ dispatchHandlers ++ imageOpsHandlers ++ gridDeriveHandlers ++ itkHandlers ++ imageioHandlers ++ tstateHandlers ++ heapHandlers
+  gridHandlers ++ sampleHandlers ++ flowHandlers ++ affineHandlers ++ bsplineHandlers ++ fdHandlers ++ lossHandlers ++ dispatchHandlers ++ imageOpsHandlers ++ gridDeriveHandlers ++ itkHandlers ++ imageioHandlers ++ tstateHandlers ++ heapHandlers ++ gradHandlers ++ transformHandlers ++ regHandlers
 
 end Deepali.Drv
